@@ -41,7 +41,7 @@ for f in metas:
     out.append(f"| {sid} | {summ} | {', '.join(c.get('caught_by', [])) or '—'} | {strength.get(sid, '—')} |")
 out.append(f"\n{missed} of the {len(metas)} changes were missed by the checks as they stood when the change arrived; all are caught now. The recurring lesson: every miss was an input class the generators did not produce (a size, a spelling, a constructor, a second level, a key ending in a digit), never an oracle that looked the other way - which is the characteristic limit of this family (section 7).\n")
 out.append("### 9.3 Behaviour-preserving changes\n")
-out.append("A scratch tree with eight refactorings that keep every property (private helper of the sampler renamed, two error messages reworded, an extra node attribute on fine nodes, dict-based bookkeeping in `squash_atoms` and `read_fragments`, string concatenation in the writer, NumPy means in layout and forward mapping) was run through all twenty quick checks: no VIOLATION, no INCONCLUSIVE. Hooks whose target disappears are skipped (`hooks.MISSING`), mechanism line coverage never influences a verdict, messages are matched only to *classify an expected rejection*, never to raise an alarm. False alarms met while building the machinery and how they were removed: C18 bond-length window on hypervalent sulfur / bridged benzene / fused three-rings (domain restricted to unstrained standard-valence molecules); C18 round trip on P(=O)(=C) (RDKit's order-dependent charge separation: hypervalent centres excluded); C09 on explicitly written hydrogens and on label-insensitive pairings of unequal order (contract follows the statement); C17 stop rule on a float tie (targets moved off multiples, sequential accumulation replayed); C19 on a graph whose only edge has order 0 (outside the premise); C03 equal-order requirement under the label-insensitive convention (dropped, the statement does not make it); C12 thorough tier on a loaded machine: the per-case hang watchdog fired inside a history, the monitor's own `except Exception` turned it into a recorded 'result' and the comparison with the reference run reported a difference (the watchdog exception is now a BaseException, a history case has a one-hour budget, and a fired watchdog can only make a run inconclusive); C03 thorough tier: the workload generator ran out of ring numbers on a fragment with more than 15 ring closures and ended the shard as a harness error (pool extended; a generator crash now restarts generation and is recorded in the evidence).\n")
+out.append("A scratch tree with eight refactorings that keep every property (private helper of the sampler renamed, two error messages reworded, an extra node attribute on fine nodes, dict-based bookkeeping in `squash_atoms` and `read_fragments`, string concatenation in the writer, NumPy means in layout and forward mapping) was run through all twenty quick checks: no VIOLATION, no INCONCLUSIVE. Hooks whose target disappears are skipped (`hooks.MISSING`), mechanism line coverage never influences a verdict, messages are matched only to *classify an expected rejection*, never to raise an alarm. False alarms met while building the machinery and how they were removed: C18 bond-length window on hypervalent sulfur / bridged benzene / fused three-rings (domain restricted to unstrained standard-valence molecules); C18 round trip on P(=O)(=C) (RDKit's order-dependent charge separation: hypervalent centres excluded); C09 on explicitly written hydrogens and on label-insensitive pairings of unequal order (contract follows the statement); C17 stop rule on a float tie (targets moved off multiples, sequential accumulation replayed); C19 on a graph whose only edge has order 0 (outside the premise); C03 equal-order requirement under the label-insensitive convention (dropped, the statement does not make it); C12 thorough tier on a loaded machine: the per-case hang watchdog fired inside a history, the monitor's own `except Exception` turned it into a recorded 'result' and the comparison with the reference run reported a difference (the watchdog exception is now a BaseException, a history case has a one-hour budget, and a fired watchdog can only make a run inconclusive); C03 thorough tier: the workload generator ran out of ring numbers on a fragment with more than 15 ring closures and ended the shard as a harness error (pool extended; a generator crash now restarts generation and is recorded in the evidence); C06 thorough tier (seed 41): in a polymer-style input resolved under the label-insensitive convention a lower-case benzene unit had received an exocyclic double bond (a `$` of order 1 pairs with a `$` of order 2 there), its ring was no longer aromatic and the library's re-kekulisation of all lower-case atoms put the double bond of the quinoid structure on the bond between two rings, annotated with order 1 - the bond-order clause of C03 now accepts 1, 2 or 1.5 for a bond between two atoms written in lower case, in the polymer-style workloads only (in the ground-truth workloads aromatic rings are aromatic and the strict clause stays).\n")
 p = os.path.join(V, 'DESIGN.md')
 s = open(p).read()
 s = s[:s.index('## 9. Validation of the monitors')].rstrip('\n') + '\n\n' + '\n'.join(out) + '\n'
